@@ -45,4 +45,10 @@ def valueLengths {α} (lists : List (List α)) : List Nat := lists.map List.leng
 def fromArrays {α} (offsets : List Nat) (flat : List α) (mask : List Bool) : ListCol α :=
   { offsets := offsets, values := flat, valid := mask.map (fun b => !b) }
 
+/-- `values.take(np.argsort(nums, kind="stable"))`: the values in ascending order of their row numbers -/
+def takeSortedByRows {β} (nums : List Nat) (vals : List β) : List β := (sortPairs (nums.zip vals)).map (·.2)
+/-- `mask = np.zeros(n, bool)`; `mask[nums] = True` -/
+def scatterTrue (n : Nat) (nums : List Nat) : List Bool :=
+  nums.foldl (fun acc r => acc.set r true) (List.replicate n false)
+
 end LK.ArrowOps
